@@ -167,6 +167,14 @@ Corollary exec_read_record s t :
   exec s (ReadRecord rx t) = Ok (set_line rx s t false, ONone).
 Proof. reflexivity. Qed.
 
+(* how the operations of a program reach the functions specified in FieldsInv.v *)
+Lemma exec_set_field_const s x t :
+  exec s (SetField rx (IConst x) t) = do s1 <- setf s (f2i64 x) t; Ok (s1, ONone).
+Proof. reflexivity. Qed.
+
+Lemma exec_set_nf s v : exec s (SetNF rx v) = do s1 <- setnf s v; Ok (s1, ONone).
+Proof. reflexivity. Qed.
+
 (* ---- no operation panics ------------------------------------------------------ *)
 
 Definition op_safe (o : op) : Prop :=
